@@ -272,7 +272,18 @@ fn c15_grid(ctx: &mut Ctx, ch: &Choices) -> R {
     let kind = ch.draw("c15.ctor", 3) as usize;
     let ri = ch.draw("c15.rate", RATES15.len() as u64) as usize;
     let rate = RATES15[ri];
-    ctx.describe(|| format!("constructor grid: ctor={} rate={rate} x bits 0..=34 x channels 0..=9 x 8 declared totals", ["sample", "byte", "channel"][kind]));
+    // the seek-table policy takes part in construction when a total is declared (placeholder points)
+    let seekopt = ch.draw("c15.grid.seek", 4);
+    let grid_opts = move || {
+        let o = Options::default().padding(0).unwrap();
+        match seekopt {
+            0 => o.no_seektable(),
+            1 => o,
+            2 => o.seektable_seconds(255),
+            _ => o.seektable_frames(1),
+        }
+    };
+    ctx.describe(|| format!("constructor grid: ctor={} rate={rate} seektable option {seekopt} x bits 0..=34 x channels 0..=9 x 8 declared totals", ["sample", "byte", "channel"][kind]));
     ctx.api(40, (kind * 16 + ri) as u64);
     probe("c15_grid_slice");
     crate::monitor::note(format!("grid slice ctor={kind} rate={rate}"));
@@ -295,7 +306,9 @@ fn c15_grid(ctx: &mut Ctx, ch: &Choices) -> R {
             ];
             for (ti, total) in totals.iter().enumerate() {
                 let what = format!("{}::new(rate={rate}, bits={bps}, channels={chn}, total={total:?})", ["FlacSampleWriter", "FlacByteWriter", "FlacChannelWriter"][kind]);
-                let r = guarded(ctx, &what, || ctor(kind, Options::default().padding(0).unwrap().no_seektable(), rate, bps, chn, *total))?;
+                // the huge totals would make a seek-table reservation of a million points per call: keep
+                // those on the no-seek-table option
+                let r = guarded(ctx, &what, || ctor(kind, if ti <= 4 { grid_opts() } else { Options::default().padding(0).unwrap().no_seektable() }, rate, bps, chn, *total))?;
                 ctx.eval_fp(mix(mix(bps as u64, chn as u64), mix(ti as u64, r.is_ok() as u64) ^ ((kind * 16 + ri) as u64) << 20), true);
                 match &r {
                     Ok(_) => probe("c15_ctor_accepted"),
